@@ -805,6 +805,58 @@ def conv_paddings(res, tier, okx):
     return {"cases": len(cases)}
 
 
+def mean_parts(res, tier, okx):
+    """validation of convert_mean_to_depthwise_conv against props/C01.v axis_parts_cover / axis_parts_disjoint: the depthwise
+    convolutions that reach the result must read row ranges that are the running sums of their kernel heights, together all
+    rows (and all columns) that the MEAN reduces - no partial sum may be missing or counted twice"""
+    import tempfile
+    n = 150 if tier == "quick" else 2500
+    rng = random.Random("c01mean/%d" % vlib.seed())
+    cases = []
+    for _ in range(n):
+        mode = rng.choice([0, 0, 0, 1, 2])
+        if mode == 0:
+            h, w = rng.choice([(rng.randrange(1, 20), rng.randrange(1, 20)), (rng.randrange(20, 260), rng.randrange(1, 130)), (rng.randrange(60, 140), rng.randrange(60, 140))])
+        elif mode == 1:
+            h, w = rng.randrange(1, 400), rng.randrange(1, 12)
+        else:
+            h, w = rng.randrange(1, 12), rng.randrange(1, 400)
+        cases.append([h, w, rng.choice([1, 2, 4]), mode, rng.randrange(2)])
+    tmp = tempfile.mkdtemp(prefix="c01mean_", dir=vlib.BUILD)
+    cj, oj = os.path.join(tmp, "cases.json"), os.path.join(tmp, "out.json")
+    json.dump(cases, open(cj, "w"))
+    p = subprocess.run([vlib.PY, os.path.join(vlib.ROOT, "tools", "rewrite_worker.py"), cj, oj, "meanparts"], env=vlib.py_env({"VERIF_TMP": tmp}),
+                       capture_output=True, text=True, timeout=3000)
+    if p.returncode != 0 or not os.path.exists(oj):
+        res.violation({"machinery": "rewrite worker (meanparts)"}, {"stderr": p.stderr[-1500:]},
+                      "C01: convert_mean_to_depthwise_conv could not be run on generated MEAN operators", no_input=True)
+        return {"cases": 0}
+    impl = json.load(open(oj))
+    shutil.rmtree(tmp, ignore_errors=True)
+    rows = [(c, o) for c, o in zip(cases, impl) if o["convs"]]
+    model = models.run("axis_offsets", [[cv[2] for cv in o["convs"]] for c, o in rows]) if okx and rows else []
+    bad = 0
+    nconv = collections.Counter()
+    for (c, o), m in zip(rows, model):
+        h, w, _, mode, _ = c
+        cv = o["convs"]
+        nconv[min(len(cv), 4)] += 1
+        want = (h * w) if mode == 0 else h if mode == 1 else w
+        got = sum(x[2] * x[3] for x in cv)
+        ok = [x[0] for x in cv] == m and all(x[1] == x[2] or x[2] == 1 for x in cv) and got == want and \
+            all(x[4] == 0 and (x[5] == x[3] or x[3] == 1) for x in cv)
+        if not ok and bad < 5:
+            bad += 1
+            res.violation({"kind": "mean_parts", "case": c},
+                          {"case [h, w, c, mode (0 H and W, 1 H, 2 W), keep_dims]": c,
+                           "convolutions reaching the result [first row, rows read, kernel h, kernel w, first column, columns read, ifm shape]": cv,
+                           "model offsets for these kernel heights": m, "elements reduced": want, "elements the kernels cover": got},
+                          "C01: MEAN over %dx%d (%s): the depthwise convolutions that reach the result cover %d of the %d elements / do not tile the "
+                          "rows (props/C01.v axis_parts_cover, axis_parts_disjoint): a partial sum is missing or counted twice" % (
+                              h, w, ["height and width", "height", "width"][mode], got, want))
+    return {"cases": len(cases), "rewritten": len(rows), "convolutions per MEAN (4 = four or more)": dict(nconv)}
+
+
 def run(tier):
     res = vlib.Result("C01", tier, "other")
     b = vlib.build_property("C01")
@@ -820,6 +872,7 @@ def run(tier):
     rw_cov["axis_parts"] = axis_parts(res, tier, okm and b["ok"])
     rw_cov["tconv_paddings"] = tconv_paddings(res, tier, okm and b["ok"])
     rw_cov["conv_paddings"] = conv_paddings(res, tier, okm and b["ok"])
+    rw_cov["mean_parts"] = mean_parts(res, tier, okm and b["ok"])
     n = 470 if tier == "quick" else 3400
     max_macs = 1200000 if tier == "quick" else 30000000
     rng = random.Random("c01/%d" % vlib.seed())
